@@ -662,6 +662,14 @@ func enumC01m(seed int64, thorough bool) []func() []wcaseT {
 		}
 	}
 	// one block beyond 2^24 bytes: 24-bit offsets / addresses / distances inside the transforms (EXE addresses, LZ distances ...)
+	// (BWT: 9 MiB in a 16 MiB block: the regime between 8 and 16 MiB of its inverse)
+	gens = append(gens, func() []wcaseT {
+		run := &writerRun{Run: 8999, Mode: "c01m", Seed: seed*61 + 8999, After: "close", Shape: "text"}
+		run.Size = 9<<20 + 12345
+		run.W = kz.Cfg{Transform: "BWT", Entropy: "NONE", Block: 16 << 20, Jobs: 1, Ck: 32, Hint: int64(run.Size)}
+		run.RJobs = 4
+		return []wcaseT{{run, gen.Make("text", run.Seed, run.Size)}}
+	})
 	bigT := []string{"EXE", "LZ", "LZX", "ROLZ"}
 	if thorough {
 		bigT = append(bigT, "LZP", "RLT", "ZRLT", "TEXT", "UTF", "PACK", "MM", "DNA", "ROLZX")
